@@ -59,6 +59,9 @@ SETTINGS = {
     "am1e_md": lambda: dict(sp.make_params("AM1", solver="adaptive", eps=1e-8), elements=[0, 1, 6, 7, 8]),
     "am1e_anal": lambda: dict(sp.make_params("AM1", solver="adaptive", eps=1e-10, force_mode="analytical"), elements=[0, 1, 6, 7, 8]),
     "pm3e_anal": lambda: dict(sp.make_params("PM3", solver="adaptive", eps=1e-10, force_mode="analytical"), elements=[0, 1, 6, 7, 8]),
+    # the SP2 request of "mndo_sp2" under an unrestricted reference (refused); in the shared flavours the two dictionaries
+    # hold the SAME `sp2` list object (a shallow copy of the caller's settings, as `dict(params, UHF=True)` makes one)
+    "mndo_sp2_uhf": lambda: sp.make_params("MNDO", solver="fixed0.3", eps=1e-7, sp2=1e-7, uhf=True),
     # unsupported combination that is refused INSIDE the SCF step (NotImplementedError), not in Molecule()
     "am1_uhf_pulay": lambda: sp.make_params("AM1", solver="pulay", eps=1e-8, uhf=True),
 }
@@ -79,6 +82,7 @@ JOBS = {
     "H": ("sp", "pm6", "H2S"),
     "X": ("sp", "am1", "CH3"),  # odd electron count under RHF: must raise
     "X2": ("sp", "am1_uhf_pulay", "CH3"),  # refused inside the SCF loop: must raise, and must leave no trace
+    "CU": ("sp", "mndo_sp2_uhf", "CH3"),  # SP2 + open shell: must raise, and must leave the shared sp2 list alone
     "AL": ("splearn", "am1_learned", "H2O"),  # caller supplies g_ss (table values): same numbers as plain AM1
     "AL2": ("splearn", "am1_learned2", "H2O"),
     "M": ("md", "am1_md", "H2O", "bomd"),
@@ -131,6 +135,7 @@ class Ctx:
         self.drivers = {}
         self.pending = {}  # job -> (loss, molecule) for split forward/backward
         self.engines = {}  # (settings, engine kind) -> MD engine object shared by flavour D
+        self.shared = {}  # sub-objects shared between settings dictionaries (shallow copies)
         self.const = None  # the Constants object shared by every flavour-D single point (one `const` per user script)
 
 
@@ -151,6 +156,8 @@ def run_event(ev, ctx):
     else:
         if sname not in ctx.dicts:
             ctx.dicts[sname] = SETTINGS[sname]()
+            if sname in ("mndo_sp2", "mndo_sp2_uhf"):  # shallow copies of one caller dictionary share the list object
+                ctx.dicts[sname]["sp2"] = ctx.shared.setdefault("sp2", ctx.dicts[sname]["sp2"])
         params = ctx.dicts[sname]
     mol = _mol(molname) if "+" not in molname else None
     try:
@@ -391,7 +398,7 @@ def run(chk, tier, seed):
     if tier == "quick":
         stateful = ["A2:d", "A3:D", "E:d", "G:f", "X2:f", "AL:f"]
         probes_small = ["A:d", "F:f", "AL2:f"]
-        probes1 = ["A:d", "A2:d", "E2:d", "F:f", "L:f", "H:d", "D:d", "A:D", "AL:f", "A4:d", "PS:f", "P:d", "B2:f", "Q:f", "N2:D", "K1:D", "K3:D", "KP:D"]
+        probes1 = ["A:d", "A2:d", "E2:d", "F:f", "L:f", "H:d", "D:d", "A:D", "AL:f", "A4:d", "PS:f", "P:d", "B2:f", "Q:f", "N2:D", "K1:D", "K3:D", "KP:D", "C:d"]
     else:
         probes1 = events
     for p in probes1:  # depth 1: full event alphabet as prefix
@@ -406,7 +413,7 @@ def run(chk, tier, seed):
         # dictionaries and drivers, differentiable jobs, refused calls, learned lists, MD engines, single precision,
         # another parameter directory) in front of every probe of the medium probe set; depth 3 on the small sets.
         # (the full alphabet squared in front of every event is 1.4e5 two-second executions: beyond the budget)
-        stateful2 = stateful + ["A4:d", "L2:d", "M2:d", "Q:f", "Q2:d", "PS:d", "P:d", "AL2:f", "D:d", "E2:D", "M:d", "N1:D", "K2:D", "K4:D", "KA:D"]
+        stateful2 = stateful + ["A4:d", "L2:d", "M2:d", "Q:f", "Q2:d", "PS:d", "P:d", "AL2:f", "D:d", "E2:D", "M:d", "N1:D", "K2:D", "K4:D", "KA:D", "CU:d"]
         stateful2 = [e for e in dict.fromkeys(stateful2) if e in events]
         probes_med = ["A:d", "A:D", "A2:d", "E2:d", "F:f", "F2:f", "L:f", "M:f", "H:d", "D:d", "AL:f", "A4:d", "PS:f", "P:d", "B2:f", "Q:f", "C:f", "N2:D", "K1:D", "K3:D", "KP:D"]
         chk.extra["thorough_depth2_prefix_alphabet"] = stateful2
